@@ -53,25 +53,48 @@ SPECS = {
 
 
 def content_hash(body):
-    """A closure's identity that survives renumbering and renaming: its operations, callees and constants in order."""
+    """A closure's identity that survives renumbering and renaming of locals: its operations, the fields and variants it
+    goes through, its callees and its constants, in order."""
     parts = []
+
+    def place(p):
+        out = []
+        for e in p.get("p", []):
+            if e == "*":
+                out.append("*")
+            elif isinstance(e, dict):
+                out.append(str(e.get("n", e.get("d", "[]"))))
+        return ".".join(out)
+
+    def operand(o):
+        if not isinstance(o, dict):
+            return ""
+        c = o.get("const")
+        if c:
+            return "c:" + str(c.get("int", c.get("str", c.get("item", c.get("fn", c.get("disp", ""))))))
+        q = o.get("move") or o.get("copy")
+        return "p:" + place(q) if q else ""
+
     for blk in body["blocks"]:
         if blk["cleanup"]:
             continue
         for s in blk["stmts"]:
             if "lhs" in s:
                 rv = s["rv"]
-                parts.append(rv.get("k", "") + ":" + str(rv.get("op", rv.get("variant", ""))))
+                parts.append(place(s["lhs"]) + "=" + rv.get("k", "") + ":" + str(rv.get("op", rv.get("variant", ""))))
                 for k in ("a", "b"):
-                    c = (rv.get(k) or {}).get("const") if isinstance(rv.get(k), dict) else None
-                    if c:
-                        parts.append(str(c.get("int", c.get("str", c.get("disp", c.get("fn", ""))))))
+                    if isinstance(rv.get(k), dict):
+                        parts.append(operand(rv[k]))
+                for o in rv.get("ops", []):
+                    parts.append(operand(o))
+                if isinstance(rv.get("p"), dict):
+                    parts.append("p:" + place(rv["p"]))
         t = blk["term"]
+        if t["k"] in ("assert", "drop"):
+            continue    # overflow and pointer checks differ between build configurations
         parts.append(t["k"] + ":" + strip_generics(t.get("callee") or ""))
         for a in t.get("args", []):
-            c = a.get("const")
-            if c:
-                parts.append(str(c.get("int", c.get("str", c.get("disp", c.get("fn", ""))))))
+            parts.append(operand(a))
     return hashlib.sha256("|".join(parts).encode()).hexdigest()[:16]
 
 
@@ -361,6 +384,223 @@ def _bind_captures(body, env, first_block, captured):
             t["p"] = fix(t["p"])
 
 
+_STD_VARIANTS = {OPTION: {"None": 0, "Some": 1}, RESULT: {"Ok": 0, "Err": 1}}
+
+
+def _succs(t):
+    if t["k"] == "goto":
+        return [t["target"]]
+    if t["k"] == "switch":
+        return [a[1] for a in t["arms"]] + [t["otherwise"]]
+    if t["k"] in ("call", "drop", "assert") and t.get("target") is not None:
+        return [t["target"]]
+    return []
+
+
+def _preds(body, live):
+    preds = {}
+    for b in live:
+        for x in _succs(body["blocks"][b]["term"]):
+            preds.setdefault(x, []).append(b)
+    return preds
+
+
+def _idom(body, live, preds, node):
+    """Immediate dominator of `node` among live blocks (small graphs: set intersection to a fixed point)."""
+    order = sorted(live)
+    dom = {b: set(order) for b in order}
+    dom[0] = {0}
+    changed = True
+    while changed:
+        changed = False
+        for b in order:
+            if b == 0:
+                continue
+            ps = [p for p in preds.get(b, []) if p in dom]
+            if not ps:
+                continue
+            new = set.intersection(*(dom[p] for p in ps)) | {b}
+            if new != dom[b]:
+                dom[b] = new
+                changed = True
+    strict = dom.get(node, set()) - {node}
+    for d in strict:
+        if all(o in dom[d] for o in strict):
+            return d
+    return None
+
+
+def _reads(stmt):
+    out = set()
+
+    def pl(p):
+        out.add(p["l"])
+        for e in p["p"]:
+            if isinstance(e, dict) and "i" in e:
+                out.add(e["i"])
+
+    rv = stmt["rv"]
+    for k in ("a", "b"):
+        o = rv.get(k)
+        if isinstance(o, dict):
+            q = o.get("move") or o.get("copy")
+            if q:
+                pl(q)
+    for o in rv.get("ops", []):
+        q = o.get("move") or o.get("copy")
+        if q:
+            pl(q)
+    if isinstance(rv.get("p"), dict):
+        pl(rv["p"])
+    if stmt["lhs"]["p"]:
+        pl(stmt["lhs"])
+    return out
+
+
+def _hoist_prefix(body, live, preds, s_i):
+    """Move the statements in front of `d = discriminant(x); switch d` in block s_i to the end of its immediate dominator,
+    when nothing they read is written on the way (they build a closure and the references it captures)."""
+    S = body["blocks"][s_i]
+    stmts = [x for x in S["stmts"] if "lhs" in x]
+    prefix = stmts[:-1]
+    if not prefix:
+        return True
+    d_i = _idom(body, live, preds, s_i)
+    if d_i is None:
+        return False
+    D = body["blocks"][d_i]
+    if D["term"]["k"] not in ("switch", "goto"):
+        return False
+    # blocks between D and S
+    fwd = set()
+    stack = list(_succs(D["term"]))
+    while stack:
+        x = stack.pop()
+        if x in fwd or x == s_i or x == d_i:
+            continue
+        fwd.add(x)
+        stack.extend(_succs(body["blocks"][x]["term"]))
+    between = {x for x in fwd if x in live}
+    written = set()
+    for x in between:
+        blk = body["blocks"][x]
+        for st in blk["stmts"]:
+            if "lhs" in st:
+                written.add(st["lhs"]["l"])
+        t = blk["term"]
+        if t["k"] == "call":
+            written.add(t["dest"]["l"])
+    need = set()
+    defined = set()
+    for st in prefix:
+        if st["lhs"]["p"]:
+            return False
+        need |= _reads(st) - defined
+        defined.add(st["lhs"]["l"])
+    if need & written or defined & written:
+        return False
+    D["stmts"] = D["stmts"] + prefix
+    keep = stmts[-1]
+    S["stmts"] = [x for x in S["stmts"] if "lhs" not in x or x is keep]
+    return True
+
+
+def thread_variant_switches(body, adts):
+    """`x = Some(v); goto S` where S only does `switch discriminant(x)` goes straight to S's `Some` arm (and likewise for any
+    variant built just before the test): after two combinators in a row (`.filter(p).map(f)`) each arm of the first knows
+    which arm of the second it continues in.  In an arm entered from one place only, reading the payload back is reading `v`."""
+    def variant_index(rv):
+        vi = _STD_VARIANTS.get(rv["adt"], {}).get(rv.get("variant"))
+        if vi is None:
+            a = adts.get(rv["adt"])
+            for i, v in enumerate((a or {}).get("variants", [])):
+                if v.get("name") == rv.get("variant"):
+                    try:
+                        vi = int(v["discr"]) if v.get("discr") is not None else i
+                    except (TypeError, ValueError):
+                        vi = None
+        return vi
+
+    def last_build(P, l):
+        last = None
+        for x in P["stmts"]:
+            if "lhs" in x and x["lhs"]["l"] == l:
+                last = x if not x["lhs"]["p"] else None
+        if last is None or last["rv"].get("k") != "agg" or last["rv"].get("agg") != "adt":
+            return None
+        return last["rv"]
+
+    changed_any = False
+    for _round in range(40):
+        changed = False
+        live = _live(body)
+        preds = _preds(body, live)
+        for s_i in sorted(live):
+            S = body["blocks"][s_i]
+            t = S["term"]
+            stmts = [x for x in S["stmts"] if "lhs" in x]
+            if S["cleanup"] or t["k"] != "switch" or not stmts or stmts[-1]["rv"].get("k") != "discr":
+                continue
+            d = stmts[-1]["lhs"]
+            dp = t["discr"].get("move") or t["discr"].get("copy")
+            L = stmts[-1]["rv"]["p"]
+            if d["p"] or L["p"] or dp is None or dp["p"] or dp["l"] != d["l"]:
+                continue
+            if any(x["lhs"]["l"] == L["l"] for x in stmts[:-1]):
+                continue
+            cands = []
+            for p_i in preds.get(s_i, []):
+                P = body["blocks"][p_i]
+                if P["term"]["k"] != "goto" or P["cleanup"] or p_i == s_i:
+                    continue
+                rv = last_build(P, L["l"])
+                vi = variant_index(rv) if rv is not None else None
+                if vi is not None:
+                    cands.append((p_i, vi))
+            if not cands:
+                continue
+            if len(stmts) > 1 and not _hoist_prefix(body, live, preds, s_i):
+                continue
+            for p_i, vi in cands:
+                tgt = t["otherwise"]
+                for a in t["arms"]:
+                    if a[0] == vi:
+                        tgt = a[1]
+                body["blocks"][p_i]["term"] = dict(body["blocks"][p_i]["term"], target=tgt, threaded=True)
+            changed = True
+            break
+        if not changed:
+            break
+        changed_any = True
+    if changed_any:
+        # payload reads in arms that are now entered from one building block only
+        live = _live(body)
+        preds = _preds(body, live)
+        for t_i in sorted(live):
+            ps = preds.get(t_i, [])
+            if len(ps) != 1:
+                continue
+            P = body["blocks"][ps[0]]
+            if P["term"]["k"] != "goto":
+                continue
+            for st in body["blocks"][t_i]["stmts"]:
+                if "lhs" not in st or st["rv"].get("k") != "use":
+                    continue
+                q = st["rv"]["a"].get("move") or st["rv"]["a"].get("copy")
+                if q is None or len(q["p"]) < 2 or not isinstance(q["p"][0], dict) or "d" not in q["p"][0] or not isinstance(q["p"][1], dict) or "f" not in q["p"][1]:
+                    continue
+                rv = last_build(P, q["l"])
+                if rv is None or rv.get("variant") != q["p"][0]["d"] or q["p"][1]["f"] >= len(rv["ops"]):
+                    continue
+                o = rv["ops"][q["p"][1]["f"]]
+                oq = o.get("move") or o.get("copy")
+                if oq is not None:
+                    st["rv"] = {"k": "use", "a": {"copy": {"l": oq["l"], "p": list(oq["p"]) + list(q["p"][2:]), "ty": q.get("ty", "?")}}}
+                elif "const" in o and len(q["p"]) == 2:
+                    st["rv"] = {"k": "use", "a": o}
+    return changed_any
+
+
 def apply(facts):
     from .inline import _fold_switches, _resolve_refs
     known = _known()
@@ -374,6 +614,7 @@ def apply(facts):
         expand_body(j, bodies, known, log)
         if len(log) > n0:
             _fold_switches(j, adts)
+            thread_variant_switches(j, adts)
             _resolve_refs(j)
     # a closure whose only use was expanded is no longer a body of its own
     used = set()
